@@ -154,6 +154,18 @@ CHECKS = {
         "_refuted theorem, both replayed on every run.",
         RUNNER_NOTE, "DESIGN.md §5 C12",
     ),
+    "C18": (
+        "Coq proof (envelopes in exact rational arithmetic with the random draw as an input: linear/non-linear arithmetic over Q, min/max lemmas; multiplier bounds for every window content) tied by in-Coq equality of the implementation's float result with the model's rational on the exactness grid (patched random.uniform), plus envelope sampling off the grid",
+        "Theorems C18_decorrelated, C18_equal_jitter, C18_token_backoff (for every integer attempt, with the unbounded power in the "
+        "cap), C18_adaptive_multiplier, C18_adaptive, C18_retry_after_or over exact rationals; totality = the strategies are total "
+        "functions in the model; the one place where float arithmetic raises (g ** attempt beyond the float range) was the defect "
+        "repaired by fix commit e37d3df (the _pinned definitions and _refuted theorems describe the code before it). IEEE rounding is "
+        "NOT modelled: equality with the model is demanded only where float arithmetic is exact; elsewhere the envelope is sampled "
+        "with a 4-ulp tolerance.",
+        "Trusted: Coq kernel + vm_compute; hand-written model Strategies.v (tied by correspondence only); strategies_driver.py with "
+        "random.uniform replaced by a + (b - a) * r; exact float<->Fraction conversion; parameters valid (0 <= base_s <= max_s, ...).",
+        "DESIGN.md §6 C18",
+    ),
 }
 
 NOT_YET = "check not built yet at this commit (work in progress; see DESIGN.md §10 build order)"
@@ -187,7 +199,7 @@ def main():
             "enable": "no source hooks are needed: checks import /repo/src as it is (PYTHONPATH=/repo/src) and "
             "observe it through scripted callbacks, spies and a virtual clock; REDRESS_VERIF=1 is exported but unused",
             "baseline_off_cmd": "cd /repo && /venv/bin/python -m pytest -ra -q -p no:cacheprovider --timeout=900",
-            "source_commits": ["7959b97", "4805882"],
+            "source_commits": ["7959b97", "4805882", "e37d3df"],
             "add_only": True,
         },
         "engines": [
